@@ -8,6 +8,16 @@ COMMON_TB = [
 ]
 
 CHECKS = {
+    "C08": {
+        "id": "C08",
+        "engine": "lang",
+        "trusted_base": COMMON_TB + [
+            "modelled, not verified: char::is_ascii_alphanumeric / is_ascii_digit (tied exhaustively over all 0x110000 scalar values), str::split / split_once / strip_prefix / len (tied by exhaustive short strings)",
+        ],
+        "level_text": "Proved in Lean for every string of Unicode scalar values: each of the five validator models accepts exactly the specification's language (inductive element/separator grammar, ASCII classes, leading-digit rules, >=2 elements, <=255 bytes, ':' prefix, '/' structure). The validator models are tied to the Rust functions exhaustively over all strings up to length 4 (thorough 5) of a 13-symbol alphabet, over every Unicode scalar value in first and later position, at the 255/256 boundaries and on random strings; ObjectPath::new and the header-name checks of marshal::marshal are checked to give the same verdicts. An independent byte-level oracle in the harness reports concrete failing names.",
+        "level_note": "Theorems are about the Lean model; the tie is exhaustive only within the enumerated spaces (short strings, single characters), sampled beyond.",
+        "assumptions": ["Rust str primitives (split, split_once, strip_prefix, chars, len) behave as their List Char models"],
+    },
     "C20": {
         "id": "C20",
         "trusted_base": COMMON_TB + [
@@ -26,6 +36,8 @@ CHECKS = {
 ENGINES = [
     {"name": "lean-proofs", "path": "lean/RustbusModel", "serves_properties": sorted(CHECKS.keys()),
      "kind_free_text": "Lean 4 model (Model/), lemmas (Lemmas/), property theorems (Props/Cxx.lean), native driver modeld (Driver/)"},
+    {"name": "lang", "path": "harness/src", "serves_properties": [p for p in sorted(CHECKS.keys()) if CHECKS[p].get("engine") == "lang"],
+     "kind_free_text": "Rust harness: exhaustive enumeration of short strings / all characters through the validators and parsers"},
     {"name": "conn", "path": "harness/src", "serves_properties": [p for p in sorted(CHECKS.keys()) if CHECKS[p].get("engine") == "conn"],
      "kind_free_text": "Rust harness: real DuplexConn connected through the real auth code to an in-process scripted peer"},
 ]
